@@ -59,26 +59,30 @@ type oracles struct {
 	results  map[*Client]int
 	stateSet map[uint64]struct{}
 	// C07
-	lastCCID      uint64
-	latest        *memView
-	memByCCID     map[uint64]*memView
-	raftMemSeen   map[string]bool
-	readConf      map[int]map[pb.SystemCtx]map[uint64]bool
-	readWatch     map[int]*readWatch
-	dupReadIndex  int
-	roleWatch     map[int]roleRec
-	matchSeen     map[[3]uint64]bool // (leader replica, term, follower replica<<40|match) already compared
-	campaigns     []campaignRec
-	commitTerm    map[uint64]commitRec // index -> term of the entry the shard committed there (first observer wins)
-	commitSeen    map[int][2]uint64    // host -> (incarnation, highest index checked)
-	lastMem       []*memView           // last membership observed per host
-	everRemoved   map[uint64]uint64    // replica id -> ccid at which it was seen removed
-	maxCommitted  uint64
-	dupFired      int
-	deadWids      []uint64 // writes proposed with unregistered sessions: must never be applied
-	panics        []string
-	abandoned     []*pendingReq
-	snapshotsDone int
+	lastCCID        uint64
+	latest          *memView
+	memByCCID       map[uint64]*memView
+	raftMemSeen     map[string]bool
+	contact         map[int]map[int]contactRec // receiving host -> sending host -> last deliveries
+	leaderSinceTick map[[2]uint64]int64        // (host incarnation, term) -> host tick when first seen leading
+	contactSeen     map[[2]uint64]bool
+	leaderMemSig    map[[2]uint64]uint64
+	readConf        map[int]map[pb.SystemCtx]map[uint64]bool
+	readWatch       map[int]*readWatch
+	dupReadIndex    int
+	roleWatch       map[int]roleRec
+	matchSeen       map[[3]uint64]bool // (leader replica, term, follower replica<<40|match) already compared
+	campaigns       []campaignRec
+	commitTerm      map[uint64]commitRec // index -> term of the entry the shard committed there (first observer wins)
+	commitSeen      map[int][2]uint64    // host -> (incarnation, highest index checked)
+	lastMem         []*memView           // last membership observed per host
+	everRemoved     map[uint64]uint64    // replica id -> ccid at which it was seen removed
+	maxCommitted    uint64
+	dupFired        int
+	deadWids        []uint64 // writes proposed with unregistered sessions: must never be applied
+	panics          []string
+	abandoned       []*pendingReq
+	snapshotsDone   int
 }
 
 func newOracles(s *Sim) *oracles {
@@ -87,6 +91,10 @@ func newOracles(s *Sim) *oracles {
 	// the network never duplicates for C01 (its quantifier excludes it)
 	o.memByCCID = map[uint64]*memView{}
 	o.raftMemSeen = map[string]bool{}
+	o.contact = map[int]map[int]contactRec{}
+	o.leaderSinceTick = map[[2]uint64]int64{}
+	o.contactSeen = map[[2]uint64]bool{}
+	o.leaderMemSig = map[[2]uint64]uint64{}
 	o.readConf = map[int]map[pb.SystemCtx]map[uint64]bool{}
 	o.readWatch = map[int]*readWatch{}
 	o.roleWatch = map[int]roleRec{}
@@ -304,6 +312,7 @@ func (o *oracles) afterStep() {
 				s.ctx.Count("probe.leader_elected", 1)
 				o.checkElectionQuorum(h, st)
 			}
+			o.checkLeaderContact(h, st)
 		}
 		// the commit index a replica holds in memory is a fact about the shard
 		// only up to what that replica has durably saved: the leader of a single
@@ -508,6 +517,73 @@ func (o *oracles) observeMembership(h *Host, st raft.VerifState) {
 	o.checkRole(h, st, v, r.Stopped())
 }
 
+type contactRec struct {
+	tick       int64 // receiver's tick count at the last delivery from the sender
+	votingTick int64 // ... at the last delivery while the receiver did not count the sender as non-voting
+	asVoting   bool
+}
+
+// checkLeaderContact (C18, "non-voting members never count" for the quorum a
+// leader with CheckQuorum needs to stay in power): a leader that has more than
+// one voting member, and to which nothing from any member other than its
+// non-voting members has been delivered for more than three election timeouts
+// of its own ticks - all of them handled by completed steps of its step worker -
+// cannot have seen a quorum in a whole check interval and must have stepped down.
+func (o *oracles) checkLeaderContact(h *Host, st raft.VerifState) {
+	s := o.s
+	if !s.cfg.CheckQuorum || s.cfg.Quiesce || st.Quiesce {
+		return
+	}
+	voting := 0
+	nv := map[uint64]bool{}
+	for _, rm := range st.Remotes {
+		if rm.Kind == "nonvoting" {
+			nv[rm.ReplicaID] = true
+		} else {
+			voting++
+		}
+	}
+	if voting < 2 {
+		return
+	}
+	key := [2]uint64{uint64(h.id)<<32 | uint64(h.inc), st.Term}
+	// the clock starts when the replica is first seen leading the term, and
+	// again whenever the set of its voting members changes
+	msig := uint64(14695981039346656037)
+	for _, rm := range st.Remotes {
+		if rm.Kind != "nonvoting" {
+			msig = (msig ^ rm.ReplicaID) * 1099511628211
+		}
+	}
+	since, ok := o.leaderSinceTick[key]
+	if !ok || o.leaderMemSig[key] != msig {
+		o.leaderSinceTick[key] = h.ticks
+		o.leaderMemSig[key] = msig
+		return
+	}
+	base := since
+	for from, c := range o.contact[h.id] {
+		t := c.votingTick
+		if !c.asVoting {
+			t = 0
+		}
+		if !nv[s.hosts[from].replicaID] && c.tick > t {
+			t = c.tick // not (or no longer) a non-voting member for this leader
+		}
+		if t > base {
+			base = t
+		}
+	}
+	limit := int64(3*s.cfg.ElectionRTT + 2)
+	if h.stepCovered-base > limit {
+		if o.contactSeen[key] {
+			return
+		}
+		o.contactSeen[key] = true
+		s.ctx.Violate("C18", "leader-kept-without-voter-contact", "replica %d (CheckQuorum on, %d voting members) still leads term %d although for %d of its ticks (election timeout %d), all handled by its step worker, nothing was delivered to it from any member but its non-voting ones", st.ReplicaID, voting, st.Term, h.stepCovered-base, s.cfg.ElectionRTT)
+	}
+}
+
 // checkElectionQuorum (C03 "leader iff votes from a quorum of voting members",
 // C18 "election quorums are majorities of voting members plus witnesses"): when
 // a replica is first seen leading a term, the votes for it in that term that
@@ -544,6 +620,39 @@ func (o *oracles) checkElectionQuorum(h *Host, st raft.VerifState) {
 		msg := fmt.Sprintf("replica %d leads term %d with %d of %d voting members (voters and witnesses) behind it - itself and %v - quorum is %d", st.ReplicaID, st.Term, n, voting, who, voting/2+1)
 		s.ctx.Violate("C18", "leader-without-quorum", "%s", msg)
 		s.ctx.Violate("C03", "leader-without-quorum", "%s", msg)
+		return
+	}
+	// the same votes against the membership the new leader's own state machine
+	// has applied (it is never behind the raft core's): if the members of that
+	// membership that did not vote for it are a quorum of it, they can elect a
+	// second leader in this term
+	r, ok := h.nh.VerifGetReplica(shardID)
+	if !ok || !r.Initialized() {
+		return
+	}
+	m := r.MembershipNoLock()
+	if len(m.Addresses) == 0 {
+		return
+	}
+	size := len(m.Addresses) + len(m.Witnesses)
+	in := func(id uint64) bool {
+		_, a := m.Addresses[id]
+		_, w := m.Witnesses[id]
+		return a || w
+	}
+	behind := 0
+	if in(st.ReplicaID) {
+		behind++
+	}
+	for _, id := range who {
+		if in(id) {
+			behind++
+		}
+	}
+	if size-behind >= size/2+1 {
+		msg := fmt.Sprintf("replica %d leads term %d elected by itself and %v, but the membership its own state machine had applied (config change %d) has %d voters and witnesses of which only %d voted for it: the other %d are a quorum and can elect a second leader of this term (raft core counted %d voting members)", st.ReplicaID, st.Term, who, m.ConfigChangeId, size, behind, size-behind, voting)
+		s.ctx.Violate("C18", "leader-without-quorum", "cause=stale-membership: %s", msg)
+		s.ctx.Violate("C03", "leader-without-quorum", "cause=stale-membership: %s", msg)
 	}
 }
 
@@ -943,6 +1052,27 @@ func (o *oracles) checkRecovered(h *Host, st raft.VerifState) {
 // onDeliver records which replicas have answered which ReadIndex confirmation
 // round (heartbeat responses echoing the hint) of which host.
 func (o *oracles) onDeliver(from, to int, mb pb.MessageBatch) {
+	if th := o.s.hosts[to]; th.up && len(mb.Requests) > 0 {
+		// who the receiver has heard from, and when (in its own ticks); whether
+		// the sender counted as a non-voting member for the receiver at that time
+		nonVoting := false
+		if st, ok := o.peek(th); ok {
+			for _, rm := range st.Remotes {
+				if rm.ReplicaID == o.s.hosts[from].replicaID && rm.Kind == "nonvoting" {
+					nonVoting = true
+				}
+			}
+		}
+		if o.contact[to] == nil {
+			o.contact[to] = map[int]contactRec{}
+		}
+		c := o.contact[to][from]
+		c.tick = th.ticks
+		if !nonVoting {
+			c.votingTick, c.asVoting = th.ticks, true
+		}
+		o.contact[to][from] = c
+	}
 	for _, m := range mb.Requests {
 		if m.Type == pb.HeartbeatResp && (m.Hint != 0 || m.HintHigh != 0) {
 			ctx := pb.SystemCtx{Low: m.Hint, High: m.HintHigh}
